@@ -1116,6 +1116,71 @@ func ruleL8(r *Report) {
 // ---------------------------------------------------------------------------------------------
 // L9: copy-on-write publication through atomic.Value
 
+// registryPublishers: library functions that hand out the value loaded from an atomic.Value (an
+// accessor such as `entries() []columnEntry { return c.cols.Load().([]columnEntry) }`): their
+// result is published memory just like the result of Load itself.
+func registryPublishers(p *Prog) map[*ssa.Function]bool {
+	if p.publishers != nil {
+		return p.publishers
+	}
+	out := map[*ssa.Function]bool{}
+	for round := 0; round < 2; round++ {
+		for fn := range p.modFunc {
+			if fn.Origin() != nil || out[fn] || !p.InLib(fn) {
+				continue
+			}
+			pub := map[ssa.Value]bool{}
+			allInstrs(fn, func(ins ssa.Instruction) {
+				if c, ok := ins.(*ssa.Call); ok && isPublishedSource(&c.Call, out) {
+					pub[c] = true
+				}
+			})
+			if len(pub) == 0 {
+				continue
+			}
+			for changed := true; changed; {
+				changed = false
+				allInstrs(fn, func(ins ssa.Instruction) {
+					v, ok := ins.(ssa.Value)
+					if !ok || pub[v] {
+						return
+					}
+					switch x := ins.(type) {
+					case *ssa.TypeAssert:
+						if pub[x.X] {
+							pub[v], changed = true, true
+						}
+					case *ssa.Extract:
+						if pub[x.Tuple] {
+							pub[v], changed = true, true
+						}
+					}
+				})
+			}
+			for _, ret := range returnsOf(fn) {
+				for _, res := range ret.Results {
+					if _, isSlice := res.Type().Underlying().(*types.Slice); isSlice && pub[res] {
+						out[fn] = true
+					}
+				}
+			}
+		}
+	}
+	p.publishers = out
+	return out
+}
+
+// isPublishedSource: the call loads an atomic.Value or goes through an accessor that does.
+func isPublishedSource(cc *ssa.CallCommon, publishers map[*ssa.Function]bool) bool {
+	if methodOn(cc, "sync/atomic", "Value", "Load") {
+		return true
+	}
+	if sc := cc.StaticCallee(); sc != nil && publishers[originOf(sc)] {
+		return true
+	}
+	return false
+}
+
 func ruleL9(r *Report) {
 	h := r.Rule("L9", "def-use", "a slice obtained from the registry's atomic.Value is never stored into: readers hold no lock, so the registry must be replaced, not edited (copy-on-write)", 2)
 	for fn := range r.P.modFunc {
@@ -1124,8 +1189,12 @@ func ruleL9(r *Report) {
 		}
 		// published values: result of (*atomic.Value).Load, through type assertion
 		pub := map[ssa.Value]bool{}
+		publishers := registryPublishers(r.P)
+		if publishers[fn] {
+			continue // the accessor itself only hands the value on
+		}
 		allInstrs(fn, func(ins ssa.Instruction) {
-			if c, ok := ins.(*ssa.Call); ok && methodOn(&c.Call, "sync/atomic", "Value", "Load") {
+			if c, ok := ins.(*ssa.Call); ok && isPublishedSource(&c.Call, publishers) {
 				pub[c] = true
 			}
 		})
@@ -1211,8 +1280,9 @@ func ruleRegistryLists(r *Report) {
 		pub := map[ssa.Value]bool{}
 		short := map[ssa.Value]bool{} // shortened reslices of published memory
 		cell := map[ssa.Value]bool{}  // local struct copies of published elements (and their field addresses)
+		publishers := registryPublishers(r.P)
 		allInstrs(fn, func(ins ssa.Instruction) {
-			if c, ok := ins.(*ssa.Call); ok && methodOn(&c.Call, "sync/atomic", "Value", "Load") {
+			if c, ok := ins.(*ssa.Call); ok && isPublishedSource(&c.Call, publishers) {
 				pub[c] = true
 			}
 		})
